@@ -666,7 +666,7 @@ impl Property for C20 {
         PbtCfg { cases: tier.pick(30_000, 300_000), max_len: tier.pick(1200, 5000), shrink_ms: 120_000 }
     }
     fn required_labels(&self) -> Vec<&'static str> {
-        vec!["relay_corrupt", "relay_replay", "relay_drop", "relay_dup", "relay_delay", "client_disconnect", "transport_disconnect", "server_disconnect", "disconnect_all", "timeout_by_silence", "gentle_case", "reconnect", "event_connected", "event_disconnected", "e2e_messages", "poison_to_client", "poison_to_server", "server_msg_layer_disconnect", "client_msg_layer_disconnect", "silent_first_address", "unsecure_authentication", "local_client", "limit_changed", "aged_counters", "unreachable_first_address", "second_object_same_id", "sent_while_connecting", "server_long_frame", "short_lived_tokens", "misrouted_during_silence", "one_way_silence", "twin_objects_same_id", "timeouts_disabled", "junk_flood"]
+        vec!["relay_corrupt", "relay_replay", "relay_drop", "relay_dup", "relay_delay", "client_disconnect", "transport_disconnect", "server_disconnect", "disconnect_all", "timeout_by_silence", "gentle_case", "reconnect", "event_connected", "event_disconnected", "e2e_messages", "poison_to_client", "poison_to_server", "server_msg_layer_disconnect", "client_msg_layer_disconnect", "silent_first_address", "unsecure_authentication", "local_client", "limit_changed", "aged_counters", "unreachable_first_address", "second_object_same_id", "sent_while_connecting", "server_long_frame", "short_lived_tokens", "misrouted_during_silence", "one_way_silence", "twin_objects_same_id", "timeouts_disabled", "junk_flood", "slow_ticks"]
     }
     fn run_choices(&self, ctx: &mut Ctx) -> Outcome {
         let seed16 = ctx.src.u16() as u64;
@@ -703,6 +703,11 @@ impl Property for C20 {
             ctx.label("unsecure_authentication");
         }
         let tick_ms = ctx.src.pick(&[50u64, 16, 100]);
+        // a fifth of the cases run at slow frame rates: a tick as long as, or longer than, the netcode layer's 250 ms send period
+        let tick_ms = if (seed16 >> 9) % 5 == 0 { [250u64, 300][((seed16 >> 12) & 1) as usize] } else { tick_ms };
+        if tick_ms >= 250 {
+            ctx.label("slow_ticks");
+        }
         let gentle = ctx.src.chance(70);
         if gentle {
             ctx.label("gentle_case");
